@@ -34,10 +34,11 @@ pub enum Fam {
     NearConst,
     SmallSupport,
     NearVacuous,
+    Staircase,
 }
 
 impl Fam {
-    pub const ALL: [Fam; 16] = [
+    pub const ALL: [Fam; 17] = [
         Fam::Random,
         Fam::Sparse,
         Fam::Dense,
@@ -54,6 +55,7 @@ impl Fam {
         Fam::NearConst,
         Fam::SmallSupport,
         Fam::NearVacuous,
+        Fam::Staircase,
     ];
     pub fn name(self) -> &'static str {
         match self {
@@ -73,6 +75,7 @@ impl Fam {
             Fam::NearConst => "near-const",
             Fam::SmallSupport => "small-support",
             Fam::NearVacuous => "near-vacuous",
+            Fam::Staircase => "staircase",
         }
     }
 }
@@ -255,6 +258,27 @@ pub fn gen(f: Fam, n: usize, rng: &mut Rng) -> Vec<u64> {
                 };
                 let b = get(&v, pos);
                 set(&mut v, pos, !b);
+            }
+            v
+        }
+        Fam::Staircase => {
+            // a packed run of ones: the integer 2^k - 1 (assignments 0..k true), optionally shifted up by a
+            // whole number of bits or complemented — words that are exactly 0, all ones, or 2^j - 1
+            let k = match rng.below(3) {
+                0 => rng.below(size + 1),
+                1 => std::cmp::min(size, 64 * rng.below(w + 1) + rng.below(2)),
+                _ => rng.below(std::cmp::min(size, 64) + 1),
+            };
+            let shift = if rng.bool() { 0 } else { rng.below(size - k + 1) };
+            let mut v = vec![0u64; w];
+            for m in shift..shift + k {
+                set(&mut v, m, true);
+            }
+            if rng.chance(1, 3) {
+                for m in 0..size {
+                    let b = get(&v, m);
+                    set(&mut v, m, !b);
+                }
             }
             v
         }
